@@ -68,7 +68,11 @@ META = {
           "DESIGN.md §6 C18", "TLA+ spec + TLC trace validation of skip/len records"),
  "C19": m("Every CountedInput layer in a recorded stack must report exactly the bytes the bottom input delivered, after success and after failure.",
           "DESIGN.md §6 C19", "TLA+ spec + TLC trace validation of counted episodes"),
+ "C20": m("The harness is built once per feature configuration (std+chain-error default, no_std, no_std+chain-error, with the optional integrations; thorough: "
+          "11 configurations) and the same deterministic corpus of values and byte strings is run through each build; every build's records are validated by TLC "
+          "against the one specification (which has no feature dimension) and compared across builds.",
+          "DESIGN.md §6 C20", "TLA+ spec + TLC trace validation per feature configuration"),
 }
 
 PENDING = "check under construction in this session; will be claimed once quiet on the unchanged tree"
-NOT_APPLICABLE = {k: PENDING for k in ["C20"]}
+NOT_APPLICABLE = {}
